@@ -26,4 +26,10 @@ NOTES = {
   "note": "Compressed and encrypted containers: bzip2 and AES-GCM are parameters; for them the every-cut enumeration on the real code is the tie, the theorem covers framing only (see C14). Schema-section monotonicity is a hypothesis discharged in C13.",
   "technique": "Lean 4 theorem (monotonicity + exact consumption) + exhaustive cut enumeration against the real crates",
  },
+ "C04": {
+  "text": "isPacked mirrors the code's bulk-copyable decision condition for condition over the measured layout; a Lean theorem (packed_image, mutual induction over types, fields, tuples and variants, any field order rustc picks) shows that for every type judged packed at a version, every memory consistent with the layout equals the field-by-field encoding — hence no padding, wire order, and raw writes are unobservable; bulk writes/reads of sequences are shown equal to element-wise ones. The one case where the code's decision is unsound (enum mixing unit and field variants) is an explicit hypothesis, a proved counter-example and a recorded finding. The decision, the bytes of every container kind versus element-wise bytes, and bulk versus element-wise reads are compared with the real code for every zoo type and version.",
+  "design_ref": "§6 C04",
+  "note": "Trusted: measured layouts (size_of/offset_of!/pointer differences) as inputs; little-endian target; Lean kernel; harness. rustc's layout algorithm itself is not modelled — the theorem holds for every layout.",
+  "technique": "Lean 4 theorem (mutual structural induction, memory relation) + differential correspondence incl. direct bulk-vs-single oracle",
+ },
 }
